@@ -24,7 +24,7 @@ VALUES = ["as.zero", "v2"]
 
 TARGETS = {n: "_config_parser.ConfigParser._init_config_parser / _RawConfigParser / _ConfigParserDict" for n in
            ("one_override", "one_addition", "two_overrides_pair", "override_then_add", "remove_last_key")}
-for _n in ("cli_order", "cli_order_remove", "cli_table_form", "cli_two_sections"):
+for _n in ("cli_order", "cli_order_remove", "cli_table_form", "cli_two_sections", "cli_item_value"):
   TARGETS[_n] = "tools.potable._make_config_parser/_create_override_tuple"
 TARGETS["list_items"] = "tools.potable._query_actions._list_items/_item_value"
 
@@ -422,6 +422,46 @@ def _rp_list(*bits):
   return True, "--list-items for sections %s: missing %r, not in the file (or repeated) %r" % (list(base), missing, sorted(set(extra))), "list-items-" + "+".join(what)
 
 
+# ---------------------------------------------------------------------------
+# command line items: SECTION_NAME:KEY=VALUE is taken apart at the first ':' (the second for Table-Form:NAME) and the
+# first '=' after it, whatever characters VALUE holds (place-holders ${S:K}, range markers >=, further ':' and '=')
+
+CLI_SECTIONS = ["Pair", "Potential-Form", "Table-Form:tab", "Variables", "Extra"]
+CLI_KEYS = ["A-B", "A - B", "f(r,A)", "xy", "v"]
+CLI_VALUES = ["as.zero", "${Variables:v} >=2.0 as.zero", ">=2.0 as.zero", "${Extra:v}", "a:b", "a=b", "a:b=c", "a=b:c", "=", ":", "x : y = z", ""]
+
+
+def _cli_item(sec, key, val, has_value):
+  from atsim.potentials.tools import potable
+  item = "%s:%s" % (sec, key) + ("=%s" % val if has_value else "")
+  t = potable._create_override_tuple(item, has_value)
+  return (t.section, t.key, t.value), (sec, key, val if has_value else None)
+
+
+def cli_item_value(sec: int, key: int, val: int, has_value: bool) -> bool:
+  """
+  pre: 0 <= sec < 5 and 0 <= key < 5 and 0 <= val < 12
+  post: _
+  """
+  a, b, c = concrete(CLI_SECTIONS[sec]), concrete(CLI_KEYS[key]), concrete(CLI_VALUES[val])
+  h = True if has_value else False
+  with untraced():
+    got, want = _cli_item(a, b, c, h)
+    return got == want
+
+
+def _rp_cli_item(sec, key, val, has_value):
+  a, b, c = CLI_SECTIONS[sec], CLI_KEYS[key], CLI_VALUES[val]
+  try:
+    got, want = _cli_item(a, b, c, bool(has_value))
+  except Exception as e:  # noqa
+    return True, "potable item %r: %s: %s" % ("%s:%s=%s" % (a, b, c), type(e).__name__, e), "cli-item-" + type(e).__name__
+  if got == want:
+    return False, "agree", "agree"
+  return True, "potable takes the item %r apart as section=%r key=%r value=%r; the documented form SECTION_NAME:KEY=VALUE gives %r" % (
+    "%s:%s" % (a, b) + ("=%s" % c if has_value else ""), got[0], got[1], got[2], want), "cli-item-split"
+
+
 REPLAY = dict(
   one_override=lambda sec, key, val, remove: _rp([(SECTIONS[sec], KEYS[key], None if remove else VALUES[val])], [], "override"),
   one_addition=lambda sec, key, val: _rp([], [(SECTIONS[sec], KEYS[key], VALUES[val])], "add"),
@@ -433,4 +473,5 @@ REPLAY = dict(
   cli_table_form=lambda which, remove: (not cli_table_form(which, remove), "potable override/remove of Table-Form:tab:%s does not equal editing the [Table-Form:tab] section" % ["x", "y", "z"][which], "cli-table-form"),
   list_items=_rp_list,
   cli_two_sections=_rp_cli_sections,
+  cli_item_value=_rp_cli_item,
 )
